@@ -39,7 +39,7 @@ func goodFeedBytes(ts int64, withTrip bool) []byte {
 	return b
 }
 
-var dirNames = []string{"a", "b", "B", "10", "9", "09", "_x", "~", "feed-001.pb", "feed-002.pb", "feed-010.pb", "Z", "é", "日", "a.b", "a-b", "a b", ".hidden", "z0", "z00", "a[1]", "x*", "q?", "b\\c"}
+var dirNames = []string{"a", "b", "B", "10", "9", "09", "_x", "~", "feed-001.pb", "feed-002.pb", "feed-010.pb", "Z", "é", "日", "a.b", "a-b", "a b", ".hidden", "z0", "z00", "a[1]", "x*", "q?", "b\\c", "\xff\xfe.pb", "f\xe9t\xe9.pb", "\x80"}
 
 // genWideDir: a directory of 15-60 entries named in order, with runs of 2-12 consecutive (in name order) bad entries
 // at the start, in the middle and at the end - sizes at which read-ahead, batching and pre-sized listings show
@@ -158,7 +158,7 @@ func materialise(dir string, entries []any, onlyGood bool) (vanish []string, err
 type dirProp struct{}
 
 func (p *dirProp) Rule() string {
-	return "real directories of 0-8 entries (one in fifteen: 15-60 entries named in order with runs of 2-12 consecutive bad entries) with names stressing bytewise order (digits, case, punctuation, multi-byte, dot files), one directory in three itself named with blanks, brackets, wildcard characters, a backslash, braces or multi-byte characters (with a sibling directory such a pattern would match); entry kinds: good feed, good feed with a trip, symbolic link to a good feed kept elsewhere, byte-identical copies of a good feed under other names, empty file, truncated message, garbage bytes, sub-directory, file deleted after listing, dangling symlink; the sequence of Next() results is compared with the model's prediction and the journal over the directory with the journal over its good files alone; distinct = distinct input JSON; non-trivial = at least one good and one bad entry"
+	return "real directories of 0-8 entries (one in fifteen: 15-60 entries named in order with runs of 2-12 consecutive bad entries) with names stressing bytewise order (digits, case, punctuation, multi-byte, dot files, names that are not valid UTF-8), one directory in three itself named with blanks, brackets, wildcard characters, a backslash, braces or multi-byte characters (with a sibling directory such a pattern would match); entry kinds: good feed, good feed with a trip, symbolic link to a good feed kept elsewhere, byte-identical copies of a good feed under other names, empty file, truncated message, garbage bytes, sub-directory, file deleted after listing, dangling symlink; the sequence of Next() results is compared with the model's prediction and the journal over the directory with the journal over its good files alone; distinct = distinct input JSON; non-trivial = at least one good and one bad entry"
 }
 func (p *dirProp) N(tier string) int {
 	if tier == "thorough" {
